@@ -56,6 +56,9 @@ func VerifC20Modify() {
 		symAssume(enc != "" && enc != "gzip" && enc != "br")
 	}
 	hx := []string{"", "true", "false"}[symChoose(3)]
+	boosted := []string{"", "true"}[symChoose(2)] // htmx sends HX-Boosted next to HX-Request for boosted links
+	status := symInt("status")                    // any status: error pages and redirects with an HTML body are pages too
+	symAssume(status == 0 || (status >= 100 && status <= 599))
 	skipHdr := []string{"", "true", "1"}[symChoose(3)]
 	csp := []string{"", "script-src 'nonce-ab'", "default-src 'self'"}[symChoose(3)]
 	body := []byte(symString("body", symParam("B")))
@@ -65,12 +68,16 @@ func VerifC20Modify() {
 
 	wire := verifEncode(enc, body)
 	resp := &http.Response{
+		StatusCode:    status,
 		Header:        http.Header{},
 		Body:          io.NopCloser(bytes.NewReader(wire)),
 		ContentLength: int64(len(wire)),
 		Request:       &http.Request{URL: &url.URL{Path: "/"}, Header: http.Header{}},
 	}
 	resp.Header.Set("Content-Length", strconv.Itoa(len(wire)))
+	if boosted != "" {
+		resp.Request.Header.Set("HX-Boosted", boosted)
+	}
 	if ct != "" {
 		resp.Header.Set("Content-Type", ct)
 	}
@@ -121,6 +128,7 @@ func VerifC20Modify() {
 		symAssert(string(dec) == string(body), "a document without a body element is delivered unchanged and still decodes with the declared encoding")
 		return
 	}
+	symAssert(string(dec) != string(body), "an HTML response, whatever its status, gets the reload script added")
 	verifCheckInserted(string(body), string(dec), parseNonce(csp))
 }
 
